@@ -152,6 +152,109 @@ def oracle(toks, line):
     return None
 
 
+# --- floating-point operands (engine fops): values are exact dyadic rationals num / 2^k ---
+import struct
+from fractions import Fraction
+
+
+def _to_f4(x):
+    """round a binary64 value to binary32 (for + - * of binary32 operands the binary64 result is exact or innocuously rounded)"""
+    return struct.unpack("f", struct.pack("f", x))[0]
+
+
+def _show_f(ty, x):
+    if x == 0:
+        return f"{ty} 0 0"
+    fr = Fraction(x)
+    n, d = abs(fr.numerator), fr.denominator
+    e = -(d.bit_length() - 1)
+    while n % 2 == 0:
+        n //= 2; e += 1
+    return f"{ty} {'-' if x < 0 else ''}{n} {e}"
+
+
+def _fval(ty, num, k):
+    """the operand as the host computes with it (Python floats are IEEE binary64: ground truth)"""
+    if ty in ("int", "llong"):
+        return int(num)
+    return float(Fraction(num, 1 << k))       # exact by the generator's contract
+
+
+def _f_res(lt, rt):
+    if "double" in (lt, rt):
+        return "f8"
+    return "f4"
+
+
+def _f_apply(res, op, a, b, lt, rt):
+    # usual arithmetic conversions: both operands to the result type first (an integer operand may be rounded there)
+    conv = (lambda v: _to_f4(float(v))) if res == "f4" else float
+    a, b = conv(a), conv(b)
+    r = a + b if op == "+" else a - b if op == "-" else a * b
+    return _to_f4(r) if res == "f4" else r
+
+
+def oracle_f(toks, line):
+    if line in ("badinput", "badop"):
+        return None
+    c = toks[0]
+    if c == "fbin":
+        lt, rt = toks[2].split(":")[1], toks[3].split(":")[1]
+        a, b = _fval(lt, int(toks[4]), int(toks[5])), _fval(rt, int(toks[6]), int(toks[7]))
+        res = _f_res(lt, rt)
+        return line == "ok " + _show_f(res, _f_apply(res, toks[1], a, b, lt, rt))
+    if c == "fincdec":
+        w, ty = toks[2].split(":")
+        if toks[1].startswith("post") and w == "tvol":
+            return line == "nc"
+        res = "f8" if ty == "double" else "f4"
+        x = _fval(ty, int(toks[3]), int(toks[4]))
+        nw = _f_apply(res, "-" if toks[1].endswith("dec") else "+", x, 1, ty, "int")
+        e = x if toks[1].startswith("post") else nw         # the post forms yield the value held BEFORE the update
+        return line == f"ok {_show_f(res, e)} {_show_f(res, nw)}"
+    if c == "fneg":
+        ty = toks[1].split(":")[1]
+        return line == "ok " + _show_f("f8" if ty == "double" else "f4", -_fval(ty, int(toks[2]), int(toks[3])))
+    return None
+
+
+def fops(rng, thorough):
+    P = {"float": 24, "double": 53}
+    def fv(ty):
+        if ty in ("int", "llong"):
+            lim = (1 << 31) - 1 if ty == "int" else (1 << 63) - 1
+            return rng.choice([0, 1, -1, 3, (1 << 24) + 1, -(1 << 24) - 3, 16777217, 33554435, lim, -lim, rng.randrange(-lim, lim + 1), rng.randrange(-1000, 1000)]), 0
+        p = P[ty]
+        num = rng.choice([1, -1, 3, 13421773 if ty == "float" else 3602879701896397, (1 << p) - 1, -(1 << p) + 1, 1 << (p - 1), (1 << (p - 1)) + 1,
+                          rng.randrange(-(1 << p) + 1, 1 << p), rng.randrange(-(1 << p) + 1, 1 << p), rng.randrange(-4096, 4096), 0])
+        # (exponents stay far inside the normal range of the type: the model has no subnormals / overflow)
+        k = rng.choice([0, 0, 1, 2, 10, 23, 27, 30, 40] if ty == "float" else [0, 0, 1, 2, 10, 23, 27, 30, 52, 60, 100])
+        return num, k
+    ops = []
+    for op in "+-*":
+        for lw, rw in WRAPS:
+            for lt in ("float", "double", "int", "llong"):
+                for rt in ("float", "double", "int", "llong"):
+                    if lt in ("int", "llong") and rt in ("int", "llong"):
+                        continue
+                    for _ in range(4 if thorough else 1):
+                        (an, ak), (bn, bk) = fv(lt), fv(rt)
+                        ops.append(f"fbin {op} {lw}:{lt} {rw}:{rt} {an} {ak} {bn} {bk}")
+    for form in ("preinc", "predec", "postinc", "postdec"):
+        for lw in ("tainted", "tvol"):
+            for ty in ("float", "double"):
+                p = P[ty]
+                fixed = [(13421773, 27) if ty == "float" else (3602879701896397, 55), (1 << p, 0), ((1 << p) - 1, 0), (1, 60), (1, 1), (-1, 1), (0, 0), (-(1 << p), 0), (3, 0), ((1 << p) - 1, 1)]
+                for num, k in fixed + [fv(ty) for _ in range(12 if thorough else 4)]:
+                    ops.append(f"fincdec {form} {lw}:{ty} {num} {k}")
+    for lw in ("tainted", "tvol"):
+        for ty in ("float", "double"):
+            for _ in range(4):
+                num, k = fv(ty)
+                ops.append(f"fneg {lw}:{ty} {num} {k}")
+    return list(dict.fromkeys(ops))
+
+
 def vals(tn, rng, n):
     lo, hi = rng_of(*TYPES[tn])
     glo, ghi = rng_of(*guest(tn))
@@ -216,6 +319,14 @@ def run(chk):
                 for v in vals(lt, rng, 3):
                     ops.append(f"unary {form} {lw}:{lt} {v}")
     ops = list(dict.fromkeys(ops))
+    # (4) floating-point operands: + - * unary minus ++ -- (separate small harness)
+    fbin_, flog = core.build_harness("h_fops", ["h_fops.cpp"], core.SAN)
+    if fbin_ is None:
+        chk.fail("harness h_fops does not compile against the current headers (wrapped floating-point expression: type assertion or operator missing)", {"log_tail": flog[-3000:]}, found=False)
+    else:
+        fo = fops(rng, thorough)
+        core.differential(chk, fo, fbin_, oracle_f, label="floating-point operator evaluations")
+        chk.cov["input_distribution_float"] = {"fbin": sum(o.startswith("fbin") for o in fo), "fincdec": sum(o.startswith("fincdec") for o in fo), "fneg": sum(o.startswith("fneg") for o in fo)}
     res = core.differential(chk, ops, binp, oracle, label="operator evaluations")
     nblk = sum(int(a.split(" n=")[1].split()[0]) for o, a in zip(ops, res["impl"]) if o.startswith("binblk") and " n=" in a)
     chk.cov["evaluations"] += nblk
@@ -227,14 +338,18 @@ def run(chk):
     chk.cov["distinct_nontrivial"] = len(ops) + nblk
     chk.cov["rule"] = ("16 binary/comparison operators x 8 operand-wrapper combinations x 11x11 integer type pairs at boundary/random values; all 8-bit x 8-bit operand pairs per operator by block "
                        "hash (wrapper combinations rotate with the seed; thorough: all 8); compound assignment (10 ops) and ++/-- on tainted and tainted_volatile operands, unary - ~; "
-                       "only defined plain expressions are evaluated (definedness computed in 128-bit arithmetic); result TYPES are asserted at compile time against decltype of the plain expression "
+                       "floating-point operands (float, double, mixed with int / long long): + - * unary minus and pre/post ++ -- on all wrapper combinations; only defined plain expressions are evaluated (definedness computed in 128-bit arithmetic); result TYPES are asserted at compile time against decltype of the plain expression "
                        "for every instantiated combination; oracle = the plain C++ expression in the same harness + an independent Python rendering for the update semantics")
     chk.add_samples([{"op": o, "impl": a, "model": b} for o, a, b in list(zip(ops, res["impl"], res["model"]))[::max(1, len(ops) // 6)]])
-    chk.cov["trusted_base"] += ["C16: floating-point operands are not exercised; `tainted_volatile & tainted_volatile`, compound assignment on tainted<T> for T narrower than int and post-inc/dec on tainted_volatile do not compile ('nc') and are outside the property ('that compiles')"]
+    chk.cov["trusted_base"] += ["C16: floating-point operands: + - * unary minus ++ -- on float/double (also mixed with int / long long) in engine fops, values as exact dyadic rationals, IEEE round-to-nearest-even, CPython binary64 arithmetic as ground truth; floating-point division, comparisons and compound assignment are not exercised; `tainted_volatile & tainted_volatile`, compound assignment on tainted<T> for T narrower than int and post-inc/dec on tainted_volatile do not compile ('nc') and are outside the property ('that compiles')"]
 
 
 def replay(chk, rp):
     binp, log = build()
     ops = [rp["op"]] if "op" in rp else [d["op"] for d in rp.get("disagreements", [])]
+    if ops and ops[0].split()[0] in ("fbin", "fincdec", "fneg"):
+        fbin_, flog = core.build_harness("h_fops", ["h_fops.cpp"], core.SAN)
+        core.differential(chk, ops, fbin_, oracle_f, label="replay")
+        return chk.finish()
     core.differential(chk, ops, binp, oracle, label="replay")
     return chk.finish()
